@@ -474,11 +474,11 @@ pub fn start(cfg: &ServerCfg, prepare: impl FnOnce(&[Ctl])) -> Result<Running, S
                     match k {
                         LKind::Tcp => {
                             let f = HFactory::<actix_rt::net::TcpStream> { ctl, _p: std::marker::PhantomData };
-                            b = b.listen(format!("l{i}"), t.unwrap(), move || f.clone()).map_err(|e| e.to_string())?;
+                            b = b.listen(listener_name(i), t.unwrap(), move || f.clone()).map_err(|e| e.to_string())?;
                         }
                         LKind::Uds => {
                             let f = HFactory::<actix_rt::net::UnixStream> { ctl, _p: std::marker::PhantomData };
-                            b = b.listen_uds(format!("l{i}"), u.unwrap(), move || f.clone()).map_err(|e| e.to_string())?;
+                            b = b.listen_uds(listener_name(i), u.unwrap(), move || f.clone()).map_err(|e| e.to_string())?;
                         }
                     }
                 }
@@ -697,6 +697,11 @@ pub fn wait_log(mut cond: impl FnMut(&[Rec]) -> bool, watchdog: Duration) -> Wai
             thread::sleep(Duration::from_micros(300));
         }
     }
+}
+
+/// Service names in bind order; deliberately not in lexicographic order (nothing may depend on the names being sorted).
+pub fn listener_name(i: usize) -> String {
+    ["web", "admin", "zeta", "metrics"].get(i).map(|s| s.to_string()).unwrap_or_else(|| format!("svc{}", 9 - i.min(9)))
 }
 
 impl Running {
